@@ -108,4 +108,61 @@ def loopF (t : Trace ρ) (f : Flags) : Nat → LoopSt → Nat → Outcome
 def runF (t : Trace ρ) (f : Flags) (minIndex start : Nat) : Outcome :=
   loopF t f (t.last + 1 - start) ⟨minIndex, false, none⟩ start
 
+/-- `blockingquery.Query` from its entry: a request with `MinQueryIndex = 0` is a plain read (the query function
+runs once, sentinels are swallowed, nothing blocks); otherwise the loop. -/
+def query (t : Trace ρ) (f : Flags) (minIndex start : Nat) : Outcome :=
+  if minIndex = 0 then .returned start else runF t f minIndex start
+
+/-- no sentinel is ever raised -/
+def noFlags : Flags := { notFound := fun _ => false, notChanged := fun _ _ => false }
+
+/-! ### scripted runs: the tie to the real loop (round 5)
+
+The harness drives the REAL `Server.blockingQuery` (→ `blockingquery.Query` + `Server.SetQueryMeta`) with a
+scripted query function: its `k`-th call stores index `idx`, returns the sentinel `sent`, and either adds an
+already-closed channel to the WatchSet (`woken`: the loop must evaluate again) or cancels the request's context
+/ abandons the store (the loop must answer with what it has). A script is a `Trace` whose states are the
+evaluations; the answer printed for the harness is computed by `query` (hence by `runF` / `loopF`, the
+functions the theorems are about). -/
+
+inductive Sentinel
+  | none | notFound | notChanged
+deriving DecidableEq, Repr
+
+structure Eval where
+  /-- the index the response carries after `SetQueryMeta` -/
+  idx : Nat
+  sent : Sentinel
+  /-- a channel of the WatchSet of this evaluation is closed before the request ends -/
+  woken : Bool
+deriving Repr
+
+def scriptTrace (es : List Eval) : Trace Unit where
+  last := es.length - 1
+  idx k := match es[k]? with
+    | some e => e.idx
+    | none => 0
+  res _ := ()
+  fired j k := k == j + 1 && (match es[j]? with
+    | some e => e.woken
+    | none => false)
+  sched k := k
+
+def scriptFlags (es : List Eval) : Flags where
+  notFound k := match es[k]? with
+    | some e => e.sent == .notFound
+    | none => false
+  notChanged _ k := match es[k]? with
+    | some e => e.sent == .notChanged
+    | none => false
+
+/-- (number of evaluations, index of the answer) of a scripted request; `none` for the empty script -/
+def scriptRun (minIndex : Nat) (es : List Eval) : Option (Nat × Nat) :=
+  if es.isEmpty then none
+  else
+    let t := scriptTrace es
+    match query t (scriptFlags es) minIndex 0 with
+    | .returned c => some (c + 1, t.idx c)
+    | .timeout c => some (c + 1, t.idx c)
+
 end CV.BQ
